@@ -67,7 +67,7 @@ Definition laplacian (s : hg) (order : nat) : list (list Z) :=
 
 (* multiorder_laplacian(H, orders, weights): sum_d L_d * w_d / mean(K_d), skipping orders without edges *)
 Definition qmat := list (list Q).
-Definition multiorder_laplacian (s : hg) (orders : list nat) (weights : list Z) : qmat :=
+Definition multiorder_laplacian (s : hg) (orders : list nat) (weights : list Z) (rescale : bool) : qmat :=
   let n := length (h_node s) in
   fold_left (fun acc dw =>
                let '(d, w) := dw in
@@ -76,10 +76,24 @@ Definition multiorder_laplacian (s : hg) (orders : list nat) (weights : list Z) 
                if sumK =? 0 then acc
                else
                  let L := laplacian s d in
-                 (* L * w / mean(K) = L * w * n / sum(K) *)
-                 map (fun p => map (fun q => (fst q + (snd q * w * Z.of_nat n # Z.to_pos sumK))%Q) (combine (fst p) (snd p)))
+                 (* L (/ d when rescaled per node) * w / mean(K) = L * w * n / (sum(K) [* d]) *)
+                 let den := if rescale then Z.to_pos (sumK * Z.of_nat d) else Z.to_pos sumK in
+                 map (fun p => map (fun q => (fst q + (snd q * w * Z.of_nat n # den))%Q) (combine (fst p) (snd p)))
                      (combine acc L))
             (combine orders weights) (repeat (repeat 0%Q n) n).
+
+(* laplacian(H, order, rescale_per_node=True) = L / order (order >= 1) *)
+Definition rescaled_laplacian (s : hg) (d : nat) : qmat :=
+  map (map (fun x => (x # Z.to_pos (Z.of_nat d))%Q)) (laplacian s d).
+
+Inductive qquery : Type :=
+| QMulti (orders : list nat) (weights : list Z) (rescale : bool)
+| QRescaled (d : nat).
+Definition qeval (q : qquery) (s : hg) : qmat :=
+  match q with
+  | QMulti o w r => multiorder_laplacian s o w r
+  | QRescaled d => rescaled_laplacian s d
+  end.
 
 Fixpoint qmat_eqb (a b : qmat) : bool :=
   match a, b with
@@ -114,7 +128,7 @@ Fixpoint m_first_bad (s : hg) (qs : list (mquery * list (list Z))) (j : nat) : o
   | [] => None
   | (q, m) :: r => if mat_eqb (meval q s) m then m_first_bad s r (S j) else Some j
   end.
-Fixpoint matrix_bad_from (cases : list (list op * list (mquery * list (list Z)) * list (list nat * list Z * qmat))) (i : nat)
+Fixpoint matrix_bad_from (cases : list (list op * list (mquery * list (list Z)) * list (qquery * qmat))) (i : nat)
   : list (nat * nat) :=
   match cases with
   | [] => []
@@ -123,7 +137,7 @@ Fixpoint matrix_bad_from (cases : list (list op * list (mquery * list (list Z)) 
       match m_first_bad s qs O with
       | Some j => (i, j) :: matrix_bad_from r (S i)
       | None =>
-          if forallb (fun '(orders, weights, m) => qmat_eqb (multiorder_laplacian s orders weights) m) mo
+          if forallb (fun '(q, m) => qmat_eqb (qeval q s) m) mo
           then matrix_bad_from r (S i) else (i, 99%nat) :: matrix_bad_from r (S i)
       end
   end.
